@@ -189,6 +189,8 @@ def run(check):
     check.run_rule('C15.R4', lambda c: rule_upgrade_on_entry(c, 'C15.R4'))
     check.run_rule('C15.R5', lambda c: rule_fallback_discipline(c, 'C15.R5'))
     M = Models(check)
+    from ..rules_embed import rule_embed_buckets
+    check.run_rule('C15.R8', lambda c: rule_embed_buckets(c, M.embed(), {'kinds': 'C15.R8', 'clear_must': 'C15.R8', 'clear_only': None, 'order': None}))
     check.run_rule('C15.R6', lambda c: rule_nullable_deref(c, 'C15.R6', M.merge(), M.embed(), M.mask()))
 
     def r7(c):
